@@ -15,6 +15,7 @@ import (
 	"strings"
 	"sync"
 	"sync/atomic"
+	"syscall"
 	"testing"
 	"time"
 
@@ -548,6 +549,18 @@ func TestC19(t *testing.T) {
 				os.Exit(0)
 			}
 		})
+		// results of error types that cannot be nil (a uintptr errno, a struct with a value-receiver Error method)
+		try("non-nillable error results", func() {
+			eb := mocker.Create()
+			defer eb.Reset()
+			eb.Func(FErrno).Apply(func(a int) (int, syscall.Errno) { return -a, syscall.EBADF })
+			n, e := FErrno(k)
+			eb.Func(FStructErr).Return(7, codeErr{Code: 42})
+			m, se := FStructErr(k)
+			eb.Func(FErrno).Return(3, syscall.Errno(0))
+			n2, e2 := FErrno(k)
+			rec("non-nillable error results -> %d %d | %d %v | %d %d", n, e, m, se, n2, e2)
+		})
 		try("iface unmocked method", func() {
 			var j I
 			b2 := mocker.Create()
@@ -775,3 +788,13 @@ var (
 )
 
 var keptVar19 = "origin"
+
+//go:noinline
+func FErrno(a int) (int, syscall.Errno) { return a, 0 }
+
+type codeErr struct{ Code int }
+
+func (c codeErr) Error() string { return fmt.Sprint("code ", c.Code) }
+
+//go:noinline
+func FStructErr(a int) (int, codeErr) { return a, codeErr{} }
